@@ -14,3 +14,9 @@ VERIF = os.path.dirname(os.path.dirname(os.path.abspath(__file__)))
 
 if REPO_SRC not in sys.path:
     sys.path.insert(0, REPO_SRC)
+
+
+# the verifier handles integer constants that CPython (>= 3.11) refuses to print by default
+import sys as _sys
+if hasattr(_sys, 'set_int_max_str_digits'):
+    _sys.set_int_max_str_digits(0)
